@@ -368,6 +368,10 @@ def run_specs(ctx, specs, shrink=True):
     exps = expected_batch(ctx, specs)
     nviol = 0
     for sp, exp in zip(specs, exps):
+        if nviol + len(ctx.violations) >= 3 and len(sp['seqs']) > 2000:
+            # the verdict is decided; a broken implementation can take minutes on each of the huge collections
+            ctx.count('wide:huge_case_skipped_after_violations')
+            continue
         ok, impl = _canon_impl(call_impl(spec_call, sp))
         nt = len(exp) > 0
         desc = spec_desc(sp)
